@@ -39,6 +39,9 @@ Check ==
   /\ (o.died \/ o.nlines = Len(Se.lines) + 1 \/ say("P-OneReply", Len(Se.lines) + 1, o.nlines))
   /\ (o.pure \/ say("P-StdoutPure", o.impure_line, ""))
   /\ (o.died \/ Triples(saved) = o.saved \/ say("R-BadPartInert", Triples(saved), o.saved))
+  \* ... and the file the session started on holds what the session wrote there (`save: null` goes to the
+  \* path last used by a request that was carried out)
+  /\ (o.died \/ Triples(fin.files[1]) = o.first \/ say("R-SavedWhere", Triples(fin.files[1]), o.first))
   /\ (o.died \/ o.nlines # Len(Se.lines) + 1
       \/ (\A k \in 1..Len(Se.lines) : MustReport(x, Pg.menus, Se.lines[k]) => o.errors[k])
       \/ say("P-ErrorsListed", [k \in 1..Len(Se.lines) |-> MustReport(x, Pg.menus, Se.lines[k])], o.errors))
